@@ -1,5 +1,102 @@
-import GoRedisModel.Model.Show
-/-! placeholder until the theorems of C10 are written -/
+import GoRedisModel.Proofs.Table
+/-! # C10 — ill-formed arguments are rejected without side effects -/
 namespace GoRedis
-theorem C10_placeholder : True := trivial
+
+/-- **Every command of the positional grammar, every ill-formed variant**: a required position omitted, a
+null bulk where a value is required, a token that is not a 64-bit integer (non-numeric, fractional,
+overflowing) or not a float where a number is required, an empty list, a null inside a list — the request
+is answered with an error, the handler is not invoked (`rejected` contains no call), and connection and
+server state are exactly what they were, so the following requests are processed normally. -/
+theorem C10_rejected_table (pf : FloatOracle) : ∀ row ∈ grammar, row.RejectsIllFormed pf := by
+  intro row hrow
+  simp only [grammar, List.mem_cons, List.mem_nil_iff, or_false] at hrow
+  rcases hrow with rfl | rfl | rfl | rfl | rfl | rfl | rfl | rfl | rfl | rfl | rfl | rfl | rfl | rfl | rfl | rfl | rfl | rfl | rfl | rfl | rfl | rfl | rfl | rfl | rfl | rfl | rfl | rfl
+  all_goals exact rejects_of_shape pf _ _ _ (by decide) rfl rfl
+
+/-- a rejected request makes no handler call and writes one error frame; the state is unchanged -/
+theorem C10_rejected_no_call (ucmd : Bytes) (e : Err) (conn : ConnSt) (srv : SrvSt) (script : List HRes) :
+    (rejected ucmd e conn srv).run conn script =
+      ([.spanStart ucmd, .spanFinish], some (.error e, conn, srv), script) := by
+  simp [rejected, Prog.run, Prog.SpanOp.ev]
+
+/-- tokens that are not integers: non-numeric, fractional, beyond 64 bits, empty, padded -/
+theorem C10_bad_integer_tokens :
+    atoi b!"abc" = none ∧ atoi b!"1.5" = none ∧ atoi b!"9223372036854775808" = none ∧
+    atoi b!"-9223372036854775809" = none ∧ atoi b!"" = none ∧ atoi b!" 1" = none ∧ atoi b!"1e3" = none := by
+  simp [atoi, digitsVal, maxInt]
+
+/-- **Key/value and score/member lists with a dangling half** (MSET k, HMSET h f, CONFIG SET k, ZADD z 1 m 2). -/
+theorem C10_dangling_pair (ps : List (Bytes × Bytes)) (k : Bytes) : ∃ e, nextPairs (pairMsgs ps ++ [B k]) = .error e :=
+  nextPairs_dangling ps k
+
+theorem C10_mset_dangling (ps : List (Bytes × Bytes)) (k : Bytes) : Rejects (execMSet (pairMsgs ps ++ [B k])) := by
+  obtain ⟨e, he⟩ := nextPairs_dangling ps k
+  exact ⟨e, by simp [execMSet, withArgs, he]⟩
+
+theorem C10_mset_empty : Rejects (execMSet []) := ⟨_, rfl⟩
+
+theorem C10_zadd_dangling_score (pf : FloatOracle) (k s1 m1 s2 : Bytes) (v1 v2 : UInt64)
+    (h1 : pf s1 = some v1) (h2 : pf s2 = some v2) (hf : zaddFlag (upper s1) {} = none) :
+    Rejects (execZAdd pf [B k, B s1, B m1, B s2]) := by
+  unfold Rejects
+  simp [execZAdd, withArgs, nextString, nextStringRaw, zaddHead, B, msgStr, hf, zaddPairs, h1]
+  exact ⟨_, rfl⟩
+
+theorem C10_zadd_lone_score (pf : FloatOracle) (k s1 : Bytes) (v1 : UInt64)
+    (h1 : pf s1 = some v1) (hf : zaddFlag (upper s1) {} = none) :
+    Rejects (execZAdd pf [B k, B s1]) := by
+  unfold Rejects
+  simp [execZAdd, withArgs, nextString, nextStringRaw, zaddHead, B, msgStr, hf, zaddPairs]
+  exact ⟨_, rfl⟩
+
+/-- **SET: mutually exclusive options combined or repeated** — after any admissible options, an option that
+may no longer be given (NX after NX or XX, XX after NX or XX, a second KEEPTTL or GET, a second one of
+EX/PX/EXAT/PXAT — even if the first value was huge) is an error, wherever it stands. -/
+theorem C10_set_conflict (k v : Bytes) (ss : List Spelled) (bad : Spelled) (tail : List Msg)
+    (hok : ∀ s ∈ ss, s.ok) (hc : Compat {} (ss.map Spelled.item))
+    (hu : upper bad.kw = bad.item.kw)
+    (hbad : ((ss.map Spelled.item).foldl SetOpt.apply {}).admits bad.item = false) :
+    Rejects (execSet (B k :: B v :: (ss.flatMap Spelled.msgs ++ (bad.msgs ++ tail)))) := by
+  have h1 := setOpts_items b!"SET" {} ss hok hc (bad.msgs ++ tail)
+  obtain ⟨e, he⟩ := setOpts_conflict b!"SET" _ bad hu hbad tail
+  exact ⟨e, by simp [execSet, withArgs, h1, he]⟩
+
+/-- **SET: non-positive, non-numeric, null or missing expiry** -/
+theorem C10_set_bad_expiry (k v kw : Bytes) (kd : ExpKind) (hu : upper kw = kd.kw) (rest : List Msg)
+    (hbad : rest = [] ∨ (∃ r, rest = .bulk none :: r) ∨ (∃ tok r, rest = B tok :: r ∧ atoi tok = none) ∨
+            (∃ tok r n, rest = B tok :: r ∧ atoi tok = some n ∧ n < 1)) :
+    Rejects (execSet (B k :: B v :: B kw :: rest)) := by
+  obtain ⟨e, he⟩ := setOpts_bad_expiry b!"SET" {} kd kw hu rest hbad
+  exact ⟨e, by simp [execSet, withArgs, he]⟩
+
+/-- SETEX with a non-positive number of seconds -/
+theorem C10_setex_nonpositive (k v tok : Bytes) (n : Int) (h : atoi tok = some n) (hn : n < 1) :
+    Rejects (execSetEx [B k, B tok, B v]) := by
+  unfold Rejects
+  simp [execSetEx, withArgs, nextInteger_B _ _ _ _ h, hn]
+  exact ⟨_, rfl⟩
+
+/-- ZRANGE without BYSCORE: fractional or exclusive index tokens are rejected (they used to be truncated) -/
+theorem C10_zrange_fractional_index (pf : FloatOracle) (k a b : Bytes) (ha : a ≠ []) (hb : b ≠ [])
+    (h : atoi a = none ∨ atoi b = none) : Rejects (execZRange pf [B k, B a, B b]) := by
+  unfold Rejects
+  rcases h with h | h
+  · simp [execZRange, withArgs, ha, hb, rangeOpts, h]; exact ⟨_, rfl⟩
+  · cases h2 : atoi a <;> simp [execZRange, withArgs, ha, hb, rangeOpts, h, h2] <;> exact ⟨_, rfl⟩
+
+/-- STRLEN / HEXISTS without their argument are errors (they used to answer `:0`) -/
+theorem C10_strlen_missing_key (pf : FloatOracle) (srv : SrvSt) (conn : ConnSt) (ha : conn.authorized = true)
+    (hh : srv.hasHandler = true) :
+    execStrLen pf srv conn [] =
+      (Prog.emit (.start b!"GET") (.emit .finish (.ret (.error (errMissing b!"key" errEOM))))) := by
+  have hl : (userTable pf).lookup (upper b!"GET") = some (shapeS .get) := rfl
+  simp [execStrLen, nestedCall, execUser, hl, hh, gated, ha, shapeS, withArgs,
+    failE, UProg.lift, Prog.andFinish, Prog.bind]
+  rfl
+
+/-! ## Non-vacuity -/
+example : (⟨.xx, b!"xX", []⟩ : Spelled).item = .xx ∧ upper b!"xX" = SetItem.xx.kw := by decide
+example : ((([⟨.nx, b!"NX", []⟩] : List Spelled).map Spelled.item).foldl SetOpt.apply {}).admits .xx = false := by decide
+example : atoi b!"0" = some 0 ∧ (0 : Int) < 1 := by simp [atoi, digitsVal, maxInt]
+
 end GoRedis
